@@ -178,6 +178,38 @@ func zoneBoundsTable(loc *time.Location, ws, we time.Time) []tabEnt {
 	return tab
 }
 
+// theoremClass says which Lean theorem covers `next` on this zone table: "fixed" (one entry,
+// offset a multiple of 60 s: next_post_fixed), "hour-zone" (Lean's `hourTable` check:
+// whole-hour offsets within ±26 h, transitions on whole UTC hours, each by exactly one hour, at
+// least 1801 h apart: next_dst_tables), or "tie-only".
+func theoremClass(tab []tabEnt) string {
+	if len(tab) == 0 {
+		return "tie-only"
+	}
+	if len(tab) == 1 {
+		if tab[0].off%60 == 0 {
+			return "fixed"
+		}
+		return "tie-only"
+	}
+	for i, e := range tab {
+		if e.off%3600 != 0 || e.off < -93600 || e.off > 93600 {
+			return "tie-only"
+		}
+		if i == 0 {
+			continue
+		}
+		d := e.off - tab[i-1].off
+		if e.start%3600 != 0 || (d != 3600 && d != -3600) {
+			return "tie-only"
+		}
+		if i >= 2 && tab[i-1].start+6483600 > e.start {
+			return "tie-only"
+		}
+	}
+	return "hour-zone"
+}
+
 func tableLine(tab []tabEnt) string {
 	var b strings.Builder
 	b.WriteString("zone tab=")
